@@ -124,3 +124,8 @@ _add_family(globals(), _es, 'emitser', _es.oracle, share=0.05)
 # emit flags of processes sharing one schema object (one instance carries an `_emit` override)
 from harness import emitleak as _el                     # noqa: E402
 _add_family(globals(), _el, 'emitleak', _el.oracle, share=0.03)
+
+
+# rows emitted for a variable whose default is a list of quantities: in the declared units
+from harness import listunits as _lu                    # noqa: E402
+_add_family(globals(), _lu, 'listunits', _lu.oracle, share=0.02)
